@@ -8,7 +8,8 @@ cd $wt || exit 2
 echo "== diff matches patch?"; git diff > /tmp/seeds/$id/current.diff; if diff -q /tmp/seeds/$id/current.diff $sd/patch.diff; then echo PATCH_MATCH=yes; else echo PATCH_MATCH=no; fi
 echo "== tests with patch"; cargo test --workspace --no-fail-fast --offline 2>&1 | grep -E "^test result|FAILED|failed" | awk '{p+=$4; f+=$6} END {print "TESTS_PASSED=" p " TESTS_FAILED=" f}'
 echo "== demo with patch"; bash $sd/demo/run.sh $wt > /tmp/seeds/$id/demo_patched.log 2>&1; echo DEMO_PATCHED_RC=$?
-git stash -q
+# NOT `git stash`: the stash is shared by all worktrees of /repo (two concurrent users pop each other's entries)
+git checkout -q -- .
 echo "== demo without patch"; bash $sd/demo/run.sh $wt > /tmp/seeds/$id/demo_clean.log 2>&1; echo DEMO_CLEAN_RC=$?
-git stash pop -q
+git apply /tmp/seeds/$id/current.diff
 git status --short | head -5
